@@ -80,7 +80,7 @@ CONFIG = {
     "C18": {"quick": {"shards": 8, "n": 8000, "scale": 10, "arg": 6},
             "thorough": {"shards": 16, "n": 20000, "scale": 16, "arg": 10}},
     "C07": {"enum": True, "quick": {"shards": 8, "n": 4000, "scale": 8, "arg": 10},
-            "thorough": {"shards": 16, "n": 20000, "scale": 10, "arg": 24}},
+            "thorough": {"shards": 16, "n": 12000, "scale": 10, "arg": 24}},
     "C17": {"enum": True, "quick": {"shards": 8, "n": 8000, "scale": 8, "arg": 9},
             "thorough": {"shards": 16, "n": 40000, "scale": 12, "arg": 24}},
 }
